@@ -93,6 +93,14 @@ def specs(tier: str) -> List[tuple]:
         for outer_req, outer_pop, outer_dyn in ((True, True, 'static'), (False, True, 'static'), (True, False, 'dynamic'),
                                                 (False, False, 'dynamic_int')):
             out.append(('ns', True, 'static', True, None, (('n', ('ns', outer_req, outer_dyn, outer_pop, None, (('m', mid),))),)))
+    # (7) the empty tuple as a value and as a default (one port, every attribute combination)
+    for required in (True, False):
+        for t in (None, 'int', 'tuple'):
+            for dflt in (NODEFAULT, ('value', ()), ('callable', ()), ('value', (1,))):
+                if t == 'int' and dflt != NODEFAULT:
+                    continue  # (an invalid default is outside the alphabet)
+                for validator in (None, 'neg'):
+                    out.append(('ns', True, 'static', True, None, (('x', ('port', required, t, dflt, validator, 'tuples')),)))
     # (6) a namespace that has a default of its own (a mapping, plain or callable), next to an optional port so that several
     #     accepted inputs leave the namespace out
     side = ('x', ('port', False, 'int', NODEFAULT, None))
@@ -115,10 +123,13 @@ def specs(tier: str) -> List[tuple]:
     return out
 
 
+TUPLE_VALUES = (ABSENT, (), (1,), 1)  # the empty tuple is a value like any other
+
+
 def values_for(e: tuple, depth: int = 0) -> List[Any]:
     """All candidate values for an entry (ABSENT = key not given)."""
     if R.is_port(e):
-        return list(PORT_VALUES)
+        return list(TUPLE_VALUES if len(e) > 5 and e[5] == 'tuples' else PORT_VALUES)
     out: List[Any] = [ABSENT]
     names = [n for n, _ in e[5]]
     per_entry = [values_for(sub, depth + 1) for _, sub in e[5]]
@@ -130,6 +141,8 @@ def values_for(e: tuple, depth: int = 0) -> List[Any]:
 
 
 def to_python(value: Any) -> Any:
+    if value == () or (isinstance(value, tuple) and value and isinstance(value[0], int)):
+        return value  # a tuple that is meant as a value
     if isinstance(value, tuple) and value and value[0] == 'map':
         return {k: to_python(v) for k, v in value[1]}
     if isinstance(value, tuple):  # nested dynamic mapping given as tuple of pairs
@@ -240,6 +253,8 @@ def feature_of(desc: tuple) -> Dict[str, Any]:
                 kinds.add('port-validator')
             if e[2]:
                 kinds.add('typed')
+            if len(e) > 5:
+                kinds.add('tuple-values')
         else:
             if depth:
                 kinds.add('namespace')
@@ -452,5 +467,7 @@ def replay(doc: Dict[str, Any]) -> List[dict]:
     from ..cli import to_tuple
     spec = to_tuple(doc['case']['spec'])
     res = check_spec(spec)
+    import json
     want = doc['case'].get('inputs')
-    return [v for v in res['violations'] if want is None or v['case']['inputs'] == want] or res['violations'][:0]
+    same = lambda a: json.loads(json.dumps(a, default=repr)) == want  # noqa: E731 - the recorded case went through JSON
+    return [v for v in res['violations'] if want is None or same(v['case']['inputs'])] or res['violations'][:0]
